@@ -1,6 +1,6 @@
 (* Properties_C20.v — obligations of property C20 (all four build configurations decode
    identically, modulo charset width).  PARTIAL: see the end of the file. *)
-Require Import ObsRun Lemmas_TabConv Lemmas_Narrow Lemmas_Step Lemmas_WF.
+Require Import ObsRun Lemmas_TabConv Lemmas_Narrow Lemmas_Step Lemmas_WF Lemmas_Sim.
 Local Open Scope Z_scope.
 
 (* the character graph measured on the non-unicode build: control codes not stored (0x0D = end of
@@ -42,6 +42,32 @@ Print Assumptions C20_collision_refuted.
 Example C20_scenario_n : check_run_n (observer_n 16) scenario = true.
 Proof. vm_compute. reflexivity. Qed.
 
-(* PARTIAL: the simulation theorem "for collision-free histories the two instantiations of the
-   model produce related states and equal events" is not proved; the check compares the four
-   real builds on collision-free histories instead (testing). *)
+(* SIMULATION.  SR su sn: a state of the unicode model and a state of the non-unicode model agree
+   on everything (both buffer stages, settings, callbacks, user data, last RT flag, every error
+   level) except the stored characters, which are cell by cell images of the same byte (or both the
+   end-of-text marker / both the initial blank).  For every group that causes no narrow collision
+   (nocoll_group: on each cell the group addresses, the non-unicode build finds "same character as
+   stored" only if the unicode build does) the relation is preserved: every getter shows the same
+   value in both builds, characters narrowed.  nocoll_group is decidable; the check uses it (in the
+   form "injective byte pool per script") to build the histories on which the four real builds
+   must agree, and the known finding is exactly its negation. *)
+Theorem C20_simulation : forall su sn g, SR conv_u conv_n su sn -> Inv conv_u su -> Inv conv_n sn -> wf_group g ->
+  nocoll_group conv_u conv_n su sn g ->
+  SR conv_u conv_n (fst (process conv_u lut_g g su)) (fst (process conv_n lut_g g sn)).
+Proof. exact (group_simulation conv_u conv_n lut_g conv_nonzero conv_well_defined conv_space_narrow). Qed.
+Print Assumptions C20_simulation.
+
+(* the initial states are related, and clear / init / every setter preserve the relation trivially
+   (they do not look at characters) *)
+Lemma cellsrel_init n : cellsrel conv_u conv_n (cells (string_init n)) (cells (string_init n)).
+Proof.
+  unfold string_init, cells. induction n as [|n IH]; cbn; constructor; [|exact IH].
+  split; [right; left; split; reflexivity|reflexivity].
+Qed.
+Theorem C20_initial_related : SR conv_u conv_n init_state init_state.
+Proof. constructor; try reflexivity; apply cellsrel_init. Qed.
+Print Assumptions C20_initial_related.
+
+(* PARTIAL: the callbacks of the two instantiations are not related by a theorem (they follow from
+   the per-field callback theorems of C04, which hold for any table); heap on/off has no counterpart
+   in the model beyond ModelMulti (MNew / MFree). *)
